@@ -613,21 +613,61 @@ def _gen_batch(args):
     return [gen_case(rng, big=(big_every and i % big_every == big_every - 1)) for i in range(n)]
 
 
-class _Collect:
-    """Stand-in for ctx inside worker processes (thorough tier)."""
+class _WorkerCtx:
+    """Collects what check_cases reports, inside a worker process; merged into the real ctx afterwards."""
 
-    def __init__(self):
-        self.fails = []
+    def __init__(self, driver_name):
+        self.driver = common.Driver(driver_name)
+        self.cases, self.hist, self.fails, self.disagreements, self.ncompared = [], {}, [], [], 0
+        self.known = []
+
+    def model(self, lines):
+        return self.driver(lines) if self.driver.available() else None
+
+    def case(self, case, nontrivial=True, key=None):
+        small = case if len(json.dumps(case)) < 1500 else None
+        self.cases.append((key, nontrivial, small))
+
+    def count(self, key, n=1):
+        self.hist[key] = self.hist.get(key, 0) + n
+
+    def compared(self, n=1):
+        self.ncompared += n
+
+    def oracle_fail(self, case, what, signature=None):
+        self.fails.append((case, what, signature))
+
+    def disagree(self, case, impl, model, what=''):
+        self.disagreements.append((case, impl, model, what))
+
+    def match_known(self, signature):
+        return None
 
 
 def _worker(args):
-    seed, n = args
-    cases = _gen_batch((seed, n, 40))
-    res = []
-    for c in cases:
-        obs = run_real(c)
-        res.append((c, obs))
-    return res
+    seed, n, big_every = args
+    w = _WorkerCtx(DRIVER)
+    cases = _gen_batch((seed, n, big_every))
+    check_cases(w, cases)
+    return w.cases, w.hist, w.fails[:20], w.disagreements[:20], w.ncompared, w.driver.lines
+
+
+def merge_worker(ctx, res):
+    import hashlib
+    cases, hist, fails, disagreements, ncompared, lines = res
+    for key, nontrivial, small in cases:
+        ctx.case(small if small is not None else
+                 {'large_case_key_sha1': hashlib.sha1(str(key).encode()).hexdigest()},
+                 nontrivial=nontrivial, key=key)
+    for k, v in hist.items():
+        ctx.count(k, v)
+    for case, what, sig in fails:
+        ctx.oracle_fail(case, what, sig)
+    for d in disagreements:
+        ctx.disagree(*d)
+    ctx.compared(ncompared)
+    if ctx.driver:
+        ctx.driver.lines += lines
 
 
 def run(ctx):
@@ -638,11 +678,11 @@ def run(ctx):
         check_cases(ctx, cases)
     else:
         nproc = 12
-        per = 4000
         seeds = [ctx.rng.randrange(1 << 30) for _ in range(nproc * 4)]
-        batches = common.parallel_map(_gen_batch, [(s, per, 50) for s in seeds], procs=nproc)
-        for b in batches:
-            check_cases(ctx, b)
+        if ctx.model(['N N 1 N - - -']) is None:
+            raise common.HarnessError('driver unavailable in thorough tier')
+        for res in common.parallel_map(_worker, [(s, 4000, 400) for s in seeds], procs=nproc):
+            merge_worker(ctx, res)
         small = list(enum_small())
         check_cases(ctx, small, stats=False)
         ctx.extra['exhaustive_small_scope'] = len(small)
